@@ -1,4 +1,4 @@
-//go:build verif && c18hook
+//go:build verif
 
 package c18
 
@@ -23,6 +23,7 @@ func body(r *ev.Run) {
 		"peer book: the three handlers are called from one goroutine on a fresh peerState through the verif hook (as peerHandler does); peers are real serverPeers after a real version handshake over net.Pipe with a scripted remote end; the message listeners (OnVersion → AddPeer, sync manager) are not installed — admission is driven by the harness",
 		fmt.Sprintf("limits read from config: MaxPeers=%d MaxPeersPerIP=%d; weakest reading of the per-host limit: persistent peers are exempt from the per-host count (states where a host exceeds the limit when persistent peers are counted are reported as an informational counter only)", config.MaxPeers, config.MaxPeersPerIP),
 		"ban timing: the system under test reads the wall clock; 'still banned' is asserted with a 1 h ban only, 'ban elapsed' with a 1 ms ban followed by a 50 ms pause — never near the threshold",
+		"address manager (monitor 3): seeded sequences of AddAddresses/Attempt/Good/Connected/BanAddress/GetAddress on the real addrmgr; a GetAddress call that has not returned after 3 s + 25 s is reported (it spins under the manager's lock)",
 		"connection manager: bounded progress — 'stopped dialling' means no Dial/GetNewAddress/OnConnection/Close activity for 200 retry intervals (1 ms each); a miss is only reported after a confirming re-run with a 5x longer window; Remove()d connections are not expected to be replaced; permanent (backoff) requests are not exercised",
 	)
 	if r.Workers > 1 {
@@ -42,6 +43,14 @@ func body(r *ev.Run) {
 		i := i
 		r.Do(id, func() { runCMCase(r, id, i) })
 	}
+	nAM := r.Pick(400, 8000)
+	for i := 0; i < nAM; i++ {
+		id := fmt.Sprintf("am/%05d", i)
+		i := i
+		r.Do(id, func() { runAddrMgrCase(r, id, i) })
+	}
+	r.Require("am_getaddress_calls", 500)
+	r.Require("am_bans_of_tried_address", 50)
 	r.Require("book_admitted", 1000)
 	r.Require("book_events_done", 500)
 	r.Require("book_events_ban", 50)
